@@ -710,6 +710,8 @@ class FlowMixin:
         """await on user supplied awaitable: any number of suspensions, any result, any exception"""
         st.note("await <user code>")
         st.user_awaits += 1
+        if st.user_start_time is None:
+            st.user_start_time = self.loop_field(st, "time")
         self.at_suspension(st)
         pre = st.snap()
         old_time = self.loop_field(st, "time")
